@@ -40,11 +40,15 @@ CLAIMED = {
             "validation stages (comm/protocol.py _validate_sign, ledger/protocol.py _sign) for every JSON object: "
             "a refusal carries -103/-102/-101 for a field the documents do not call valid, emits no event and "
             "satisfies the oracle, and what passes both stages is not forbidden (sign_v5_conform; "
-            "Proofs/ClassifySign.lean); the counterexample F-02b is proved. Spec/C02.lean formalises docs/protocol*.md as Valid / "
+            "Proofs/ClassifySign.lean); for advanceBlockchain / updateAncestorBlock every refusal is the documents' "
+            "and the ONLY acceptances they forbid are those of the known finding F-02b - a blocks member that is "
+            "a non-empty string but not hex (blocks_commands_conform; Proofs/ClassifyBlocks.lean) - so the "
+            "classification of every request of both protocol versions is proved up to that one recorded "
+            "finding; the counterexample F-02b itself is proved. Spec/C02.lean formalises docs/protocol*.md as Valid / "
             "Unspecified / Invalid zones per field; the oracle allowedObs is evaluated on the implementation's "
             "verdict (code, device contacted) for the full single-field mutation matrix.",
-            "partial: zone agreement for the blocks/brothers fields of advanceBlockchain / updateAncestorBlock (where F-02b is a proved counterexample) is decided by the exhaustive mutation matrix "
-            "(correspondence + oracle), not by a theorem; Spec/C02.lean is a trusted reading of the documents"),
+            "partial: the theorems are about the gate and the validators (both stages for sign); that an accepted request then contacts the device is C03/C11's; "
+            "Spec/C02.lean is a trusted reading of the documents; the model's tie to the code is the mutation matrix"),
     "C03": ("Lean theorems, full statement for the model of the whole manager (comm/server.py line handling, "
             "comm/protocol.py gate + validators, ledger/protocol*.py handlers, ledger/hsm2dongle.py operations): with "
             "no link repair pending and a device that keeps to its protocol (Spec.deviceConforms: per-(APDU, answer) "
